@@ -15,6 +15,8 @@ import EinoV.Proofs.C10
 import EinoV.Proofs.C10Runs
 import EinoV.Model.C10Share
 import EinoV.Proofs.C10Share
+import EinoV.Model.C10Builtin
+import EinoV.Proofs.C10Builtin
 import EinoV.Gen.FactsC10
 import EinoV.Expected.C10
 
@@ -29,10 +31,18 @@ def genCF : CFacts :=
   ⟨FactsC10.runHasDeferredBlock, FactsC10.deferStartsIfMissing, FactsC10.wrapperOnErrorAlways,
    FactsC10.toolRunInfoUnconditional⟩
 
+/-- the parameters of the self-firing built-in components, as extracted from
+    components/prompt/chat_template.go, flow/retriever/utils, flow/retriever/router, flow/retriever/multiquery -/
+def genBF : BFacts :=
+  ⟨FactsC10.tplErrDeferred, FactsC10.tplStartEndUnconditional, FactsC10.taskErrReported, FactsC10.taskPanicReported,
+   FactsC10.routeErrReported, FactsC10.routerFusionErrReported, FactsC10.mqFusionErrReported,
+   FactsC10.routerDefaultInstalled⟩
+
 /-- Source fact tie: every regenerated fact has the value the theorems (and the oracle) use. -/
 theorem facts_match :
     genFacts = Expected.C10.facts ∧
     genCF = Expected.C10.cfacts ∧
+    genBF = Expected.C10.bfacts ∧
     FactsC10.startStreamReversed = FactsC10.startReversed ∧
     FactsC10.endForward = Expected.C10.endForward ∧
     FactsC10.streamCopyExtra = Expected.C10.streamCopyExtra ∧
@@ -385,6 +395,106 @@ theorem lambda_node_callbacks_carry_declared_info (ls : List LamD) (ns : List No
   rw [tool_call_run_info_own c evs k _ hu e he hunit]
   simp [shareUnit, hsu, lambda_node_run_info_own ls ns hwf order i d hd hi]
 
+/-! ## built-in components that fire their own callbacks, faulting at each point -/
+
+/-- every error / panic path of `DefaultChatTemplate.Format`, `ConcurrentRetrieveWithCallback`,
+    the router retriever's Router and FusionFunc stages and the multi-query retriever's FusionFunc
+    stage reports the unit's end, and the router retriever runs the router it computed
+    (source facts) -/
+theorem fact_builtin_report_every_path : genBF = BFacts.good := by decide
+
+/-- **paired_unit_finished_once.** Any unit — whoever issues its callbacks — whose program is
+    one start-kind timing followed by one finishing timing: once it has fired both, in every
+    interleaving with the other units, every handler of its list that filters nothing received
+    exactly as many start-kind callbacks as it occurs in the list and exactly as many finishing
+    callbacks (end / stream end / error counted together). -/
+theorem paired_unit_finished_once (P : Prog) (evs : List Ev) (i : Nat) (s e : Timing)
+    (hprog : unitProg P i = [s, e]) (hs : s.isStart = true) (he : e.isStart = false)
+    (hfin : (run genFacts P evs).pc i = 2) (h : Hd) (hall : h.mask = none) :
+    countStart (run genFacts P evs).log i h = (spec P i ++ P.globals).count h ∧
+    countFinish (run genFacts P evs).log i h = (spec P i ++ P.globals).count h := by
+  have hse : s ≠ e := by intro heq; rw [heq, he] at hs; cases hs
+  obtain ⟨a, b, c⟩ := fire_once_paired P evs i s e hprog hse hfin h
+  have hn : ∀ t, h.needed t = true := by intro t; simp [Hd.needed, hall]
+  simp only [hn, if_true] at a b
+  unfold countStart countFinish
+  cases s <;> simp [Timing.isStart] at hs <;> cases e <;> simp [Timing.isStart] at he <;>
+    simp [a, b, c]
+
+/-- **template_callbacks_once.** `DefaultChatTemplate.Format` with the regenerated fact: for
+    EVERY list of message templates and whichever of them fail to format (a missing variable, a
+    missing or ill-typed placeholder value, a template that does not parse, a failing custom
+    `MessagesTemplate` — at the first, a middle or the last position), the component fires the
+    start callback and then exactly one finishing callback: `OnError` iff some message template
+    fails, `OnEnd` otherwise.  Nobody else reports this unit (`wrapper_callbacks_once`: the
+    framework adds nothing to a component that fires its own callbacks). -/
+theorem template_callbacks_once (fails : List Bool) :
+    tplCalls FactsC10.tplErrDeferred fails =
+      [Timing.start, if fails.any id then Timing.error else Timing.end_] ∧
+    FactsC10.tplStartEndUnconditional = true := by
+  have h : FactsC10.tplErrDeferred = true := by decide
+  rw [h]
+  exact ⟨tplCalls_good fails, by decide⟩
+
+/-- **retrieve_task_callbacks_once.** One task of `ConcurrentRetrieveWithCallback` — the
+    retriever returns documents, returns an error, or panics — fires start and then exactly one
+    of end / error; likewise each stage (Router, FusionFunc) of the router and multi-query
+    retrievers, whether its function fails or not. -/
+theorem retrieve_task_callbacks_once (o : TaskOut) (fails : Bool) :
+    taskCalls genBF o = [Timing.start, if o.failed then Timing.error else Timing.end_] ∧
+    stageCalls FactsC10.routeErrReported fails = [Timing.start, if fails then Timing.error else Timing.end_] ∧
+    stageCalls FactsC10.routerFusionErrReported fails = [Timing.start, if fails then Timing.error else Timing.end_] ∧
+    stageCalls FactsC10.mqFusionErrReported fails = [Timing.start, if fails then Timing.error else Timing.end_] := by
+  rw [fact_builtin_report_every_path]
+  have h1 : FactsC10.routeErrReported = true := by decide
+  have h2 : FactsC10.routerFusionErrReported = true := by decide
+  have h3 : FactsC10.mqFusionErrReported = true := by decide
+  rw [h1, h2, h3]
+  exact ⟨taskCalls_good o, stageCalls_good fails, stageCalls_good fails, stageCalls_good fails⟩
+
+/-- **builtin_units_paired.** For every shape of the family (chat-template nodes with any
+    message templates, router retrievers with any route outcome / selected retrievers / fusion,
+    multi-query retrievers with a rewriting handler or the LLM chain containing a chat template
+    of its own, plain lambdas, nested graphs), with a fault at ANY point — any message template,
+    the router function, any retriever failing or panicking, the fusion function, the rewriting
+    chain's model or parser — every execution unit of the run (the called graph, nested graphs,
+    the nodes, the stages and tasks inside a retriever, the rewriting chain and its nodes) has
+    the program "one start, then one finishing callback". -/
+theorem builtin_units_paired (sh : BShape) (u : UnitSpec) (hu : u ∈ bUnits genBF sh) :
+    ∃ s e, kindProg genCF u.kind = [s, e] ∧ s.isStart = true ∧ e.isStart = false := by
+  rw [fact_builtin_report_every_path] at hu
+  exact paired_bUnits (cf := genCF) (by decide) (by decide) (by decide) sh u hu
+
+/-- a chat-template node of the called graph is a unit of the run, reported by the component
+    itself with the node's run info: start, then error iff one of its message templates fails -/
+theorem template_node_unit (sh : BShape) (key : String) (fails : List Bool)
+    (hn : BTop.node (.tpl key fails) ∈ sh.nodes) :
+    (⟨[key], false, tplInfo (nodeName [key]),
+      .self [Timing.start, if fails.any id then Timing.error else Timing.end_], true⟩ : UnitSpec) ∈ bUnits genBF sh := by
+  rw [fact_builtin_report_every_path]
+  simp only [bUnits, List.mem_cons, List.mem_append, List.mem_flatMap]
+  refine Or.inr (Or.inl ⟨_, hn, ?_⟩)
+  simp [bTopUnits, bNodeUnits, BFacts.good, tplCalls_good]
+
+/-- **builtin_started_implies_finished_once.** In a run over any shape of the family, with
+    handlers supplied in any way (`c`: global, caller context, options, designated), in every
+    interleaving of the units' steps: once a unit has fired its program, every handler of its
+    list that filters nothing got exactly as many start callbacks as it occurs in the list and
+    exactly as many finishing callbacks — also when the unit is a self-firing component whose
+    formatting / routing / retrieving / fusing failed. -/
+theorem builtin_started_implies_finished_once (sh : BShape) (c : Case) (hc : c.units = bUnits genBF sh)
+    (evs : List Ev) (k : Nat) (u : UnitSpec) (hu : c.units[k]? = some u)
+    (hfin : (run genFacts (progOf genCF c) evs).pc (k + shiftOf c) = 2) (h : Hd) (hall : h.mask = none) :
+    countStart (run genFacts (progOf genCF c) evs).log (k + shiftOf c) h =
+      (spec (progOf genCF c) (k + shiftOf c) ++ (progOf genCF c).globals).count h ∧
+    countFinish (run genFacts (progOf genCF c) evs).log (k + shiftOf c) h =
+      (spec (progOf genCF c) (k + shiftOf c) ++ (progOf genCF c).globals).count h := by
+  have hmem : u ∈ bUnits genBF sh := by rw [← hc]; exact List.mem_of_getElem? hu
+  obtain ⟨s, e, hk, hs, he⟩ := builtin_units_paired sh u hmem
+  have hprog := unitProg_progOf genCF c k u hu
+  rw [hk] at hprog
+  exact paired_unit_finished_once _ evs _ s e hprog hs he hfin h hall
+
 /-! ## stream payload copies -/
 
 /-- each handler gets its own copy and the flow continues with yet another one -/
@@ -532,6 +642,60 @@ example : let ns : List NodeD := [⟨0, "A", true⟩, ⟨0, "B", true⟩, ⟨0, 
     (runInfo shareLs (compileAll false 1 ns [0, 1, 2]) 0, runInfo shareLs (compileAll false 1 ns [0, 1, 2]) 1,
      runInfo shareLs (compileAll false 1 ns [2, 1, 0]) 0, runInfo shareLs (compileAll false 1 ns [2, 1, 0]) 2) =
     (some "A|T|Lambda", some "B|T|Lambda", some "A|T|Lambda", some "A|T|Lambda") := by decide
+
+/-- **The deferred error report that never sees the error** (`tplErrDeferred = false`: e.g. the
+    named results of `Format` replaced by a local `err` that the loop's `msgs, err :=` shadows):
+    a chat template one of whose message templates fails fires the start callback only … -/
+theorem template_error_unreported_when_shadowed (fails : List Bool) (hf : fails.any id = true) :
+    tplCalls false fails = [Timing.start] := tplCalls_blind fails hf
+
+/-- a chat-template node `A` whose second message template fails, a router retriever `R` one of
+    whose two selected retrievers panics, one graph-level handler -/
+def builtinShape : BShape :=
+  ⟨false, [.node (.tpl "A" [false, true, false]),
+           .node (.router "R" ⟨.ok, [("RA", .ok), ("RB", .panic)], false⟩)]⟩
+
+/-- … and on the unit machine the graph-level handler gets `A`'s start and nothing else. -/
+theorem template_error_unreported_on_machine :
+    let c : Case := { globals := [], userInit := none, opts := [⟨[h 1], []⟩],
+                      units := bUnits { BFacts.good with tplErrDeferred := false } builtinShape }
+    let P := progOf ⟨true, true, true, true⟩ c
+    (projLog (run ⟨true, true, true⟩ P (seqSchedule P)).log 1).map (fun e => (e.info, e.h.id, e.t)) =
+      [("n:A|Default|ChatTemplate", 1, .start)] := by
+  decide
+
+/-- non-vacuity of `builtin_units_paired`: the units of `builtinShape` with the facts of the
+    source — the failing template reports an error, the panicking retriever too, the fusion
+    stage is not reached, `join` does not run -/
+example : (bUnits BFacts.good builtinShape).map (fun u => (u.info, kindProg ⟨true, true, true, true⟩ u.kind)) =
+    [("G||Graph", [.start, .error]), ("n:A|Default|ChatTemplate", [.start, .error]),
+     ("n:R|Router|Retriever", [.start, .error]), ("RouterLambda|Router|Lambda", [.start, .end_]),
+     ("RARetriever|RA|Retriever", [.start, .end_]), ("RBRetriever|RB|Retriever", [.start, .error])] := by decide
+
+/-- a multi-query retriever whose rewriting chain contains a chat template that fails -/
+example : (bUnits BFacts.good ⟨true, [.node (.mq "M" ⟨.llm [true] false false, "RO", [.ok], false⟩)]⟩).map
+      (fun u => (u.info, kindProg ⟨true, true, true, true⟩ u.kind)) =
+    [("G||Graph", [.startStream, .error]), ("n:M|MultiQuery|Retriever", [.start, .error]),
+     ("QueryRewrite||Chain", [.start, .error]), ("Converter||Lambda", [.start, .end_]),
+     ("|Default|ChatTemplate", [.start, .error])] := by decide
+
+/-- **The default router that is computed and then dropped** (`routerDefaultInstalled = false`,
+    `routerRetriever{router: config.Router}`): a router retriever configured without `Router`
+    calls a nil function after the Router stage's `OnStart` — the stage and the node are started
+    and never finished. -/
+theorem router_default_lost_when_not_installed :
+    (bUnits { BFacts.good with routerDefaultInstalled := false }
+        ⟨false, [.node (.router "R" ⟨.dflt, [("RA", .ok)], false⟩)]⟩).map
+      (fun u => (u.info, kindProg ⟨true, true, true, true⟩ u.kind)) =
+    [("G||Graph", [.start, .error]), ("n:R|Router|Retriever", [.start]),
+     ("RouterLambda|Router|Lambda", [.start])] := by decide
+
+/-- with the default installed the same retriever routes to every registered retriever -/
+example : (bUnits BFacts.good ⟨false, [.node (.router "R" ⟨.dflt, [("RA", .ok)], false⟩)]⟩).map
+      (fun u => (u.info, kindProg ⟨true, true, true, true⟩ u.kind)) =
+    [("G||Graph", [.start, .end_]), ("n:R|Router|Retriever", [.start, .end_]),
+     ("RouterLambda|Router|Lambda", [.start, .end_]), ("RARetriever|RA|Retriever", [.start, .end_]),
+     ("FusionFuncLambda|FusionFunc|Lambda", [.start, .end_]), ("n:join|Li|Lambda", [.start, .end_])] := by decide
 
 /-- without the deferred block a failing run never reports its end;
     with a deferred block that does not check `haveOnStart` an early error return has no start -/
